@@ -728,13 +728,16 @@ def str_length_strategy(
     :param max_value: maximum string length.
     :returns: ``hypothesis`` strategy
     """
+    # ``Check.str_length`` allows either bound to be left out
+    min_size = 0 if min_value is None else min_value
     if strategy is None:
-        return st.text(min_size=min_value, max_size=max_value).map(
+        return st.text(min_size=min_size, max_size=max_value).map(
             to_numpy_dtype(pandera_dtype).type
         )
-    return strategy.filter(partial(min_len, min_value)).filter(
-        partial(max_len, max_value)
-    )
+    strategy = strategy.filter(partial(min_len, min_size))
+    if max_value is not None:
+        strategy = strategy.filter(partial(max_len, max_value))
+    return strategy
 
 
 def _timestamp_to_datetime64_strategy(
